@@ -1,7 +1,7 @@
 /-
   C19 — ITS remote deploy with a custom minter needs an exact, single-use approval.
 -/
-import Axelar.Proofs.ItsMonad
+import Axelar.Proofs.ItsApprovals
 import Axelar.Proofs.BytesLemmas
 namespace Axelar.Props.C19
 open Axelar Axelar.ItsW Axelar.Its Codec
@@ -75,6 +75,86 @@ theorem revoke_only_own (C : Crypto) (cx : ICtx) (deployer salt chain : Bytes) (
     true_and] at h
   subst h
   exact ⟨by simp [upd], fun k hk => by simp [upd, hk]⟩
+
+
+/-! ### The flows -/
+
+/-- **Who may approve, and what is stored**: a successful approval was made by an account that
+    the token's manager reports as minter (and that is not the service itself), for a trusted
+    destination chain; it stores the hash of the destination minter under the key of (the
+    caller, the deployer's token id, the destination chain) and changes no other entry. -/
+theorem approve_effect (C : Crypto) (cx : ICtx) (deployer salt chain dm : Bytes) (t t' : Tx)
+    (h : approveDeployRemote C cx deployer salt chain dm t = some ((), t')) :
+    (∃ t1, checkTokenMinter C cx (interchainTokenId C t.w.its deployer salt) cx.caller t = some ((), t1)) ∧
+    t.w.its.trusted chain ≠ [] ∧
+    t'.w.its.approvedMinters (deployApprovalKey C cx.caller (interchainTokenId C t.w.its deployer salt) chain) = C.H dm ∧
+    ∀ k, k ≠ deployApprovalKey C cx.caller (interchainTokenId C t.w.its deployer salt) chain →
+      t'.w.its.approvedMinters k = t.w.its.approvedMinters k := by
+  simp only [approveDeployRemote, run_bind, run_getI] at h
+  cases hc : checkTokenMinter C cx (interchainTokenId C t.w.its deployer salt) cx.caller t with
+  | none => simp [hc] at h
+  | some x =>
+    obtain ⟨u, t1⟩ := x
+    have hk := (keeps_checkTokenMinter C cx _ _).h t u t1 hc
+    simp only [hc, run_require, run_emit, run_setI] at h
+    by_cases htr : (t1.w.its.trusted chain).isEmpty = true
+    · simp [htr] at h
+    · simp only [htr, Bool.not_false, if_true, Option.some.injEq, Prod.mk.injEq, true_and] at h
+      subst h
+      simp only [hk] at htr ⊢
+      refine ⟨⟨t1, rfl⟩, by simpa using htr, by simp [upd], fun k hk' => by simp [upd, hk']⟩
+
+/-- **The service's own address is never accepted as the minter**, and the named minter must be
+    reported as minter by the token's manager. -/
+theorem minter_check (C : Crypto) (cx : ICtx) (tokenId minter : Bytes) (t t1 : Tx)
+    (h : checkTokenMinter C cx tokenId minter t = some ((), t1)) :
+    minter ≠ cx.self ∧ t.w.its.tmAddress tokenId ≠ [] ∧
+    ∃ t0, subcall C cx (t.w.its.tmAddress tokenId) "isMinter" 0 [] [minter] t = some ([encBool true], t0) := by
+  simp only [checkTokenMinter, run_bind, run_getI, run_require] at h
+  by_cases he : (t.w.its.tmAddress tokenId).isEmpty = true
+  · simp [he] at h
+  · simp only [he, Bool.not_false, if_true] at h
+    cases hs : subcall C cx (t.w.its.tmAddress tokenId) "isMinter" 0 [] [minter] t with
+    | none => simp [hs] at h
+    | some x =>
+      obtain ⟨rs, t0⟩ := x
+      simp only [hs] at h
+      by_cases hr : (rs == [encBool true]) = true
+      · simp only [hr, if_true] at h
+        by_cases hm : (minter != cx.self) = true
+        · have hrs : rs = [encBool true] := by simpa using hr
+          refine ⟨by simpa using hm, by simpa using he, t0, by rw [hrs]⟩
+        · simp [hm] at h
+      · simp [hr] at h
+
+/-- **Without a local minter no destination minter can be supplied.** -/
+theorem no_local_minter_no_destination_minter (C : Crypto) (cx : ICtx) (salt minter chain dm : Bytes) (t : Tx)
+    (hz : Gateway.isZeroAddr minter = true) : deployRemoteWithMinter C cx salt minter chain (some dm) t = none := by
+  simp [deployRemoteWithMinter, hz]
+
+/-! ### Over every schedule -/
+
+/-- **An approval can only be created by its author**: whatever operation of whatever schedule
+    runs, each entry of the approvals table keeps its value, or is cleared, or the operation runs
+    a call to the service made by the very account whose address the entry's key is derived
+    from.  (So nobody can fabricate, or alter, an approval in another minter's name; by
+    `approval_key_binding` keys of different accounts differ unless the hash collides.) -/
+theorem approvals_written_only_by_their_author (C : Crypto) (w : World) (op : World.Op) (key : Bytes) :
+    (World.step C w op).its.approvedMinters key = w.its.approvedMinters key ∨
+    (World.step C w op).its.approvedMinters key = [] ∨
+    ∃ src dst func tid chain, World.Runs w op src dst func ∧ w.kind dst = some .its ∧
+      key = deployApprovalKey C src tid chain :=
+  World.step_approvals C w op key
+
+/-- in particular a missing approval appears only through a call by its author -/
+theorem approval_appears_only_by_author (C : Crypto) (w : World) (op : World.Op) (key : Bytes)
+    (h0 : w.its.approvedMinters key = []) (h1 : (World.step C w op).its.approvedMinters key ≠ []) :
+    ∃ src dst func tid chain, World.Runs w op src dst func ∧ w.kind dst = some .its ∧
+      key = deployApprovalKey C src tid chain := by
+  rcases World.step_approvals C w op key with e | e | e
+  · rw [e, h0] at h1; exact absurd rfl h1
+  · exact absurd e h1
+  · exact e
 
 /-! ### Non-vacuity (test) -/
 example : ∃ st', useDeployApproval ⟨fun _ => [1], fun _ _ _ => true⟩
